@@ -351,6 +351,7 @@ func TestC01(t *testing.T) {
 	s.attackerNoise()
 	s.attackerTLS()
 	s.upgraderLevel()
+	s.transportLevel() // transport_test.go: real transports over loopback sockets, outside any bubble
 	r.Require("honest_completed_both", 20)
 	r.Require("expect_mismatch_rejected", 20)
 	r.Require("edits_applied", 500)
